@@ -237,7 +237,7 @@ impl Check for L2Check {
         self.id
     }
     fn budget(&self, tier: &str) -> usize {
-        if tier == "thorough" { 800_000 } else { 30_000 }
+        if tier == "thorough" { 2_000_000 } else { 30_000 }
     }
     fn gen_case(&self, seed: u64, _idx: usize, _tier: &str, avoid: &[String]) -> Case {
         let mut rng = Rng::new(seed, "workload");
